@@ -16,7 +16,7 @@ import weakref
 
 from hypothesis import strategies as st
 
-from vf.core import Decline, Prop, Violation, case_hash
+from vf.core import robust_gen, Decline, Prop, Violation, case_hash
 
 INTERPS = ["reflect", "lazy", "eager", "normalize", "memoize"]
 OPS = ["add", "mul", "logaddexp", "sub", "max"]
@@ -334,7 +334,7 @@ class C07(Prop):
     cases = {"quick": 1500, "thorough": 40000}
 
     def strategy(self, tier):
-        return st.integers(0, 2**40).map(gen_case)
+        return st.integers(0, 2**40).map(robust_gen(gen_case))
 
     def describe(self, case):
         return str(case)[:700]
